@@ -422,7 +422,7 @@ class Check:
                     curcase = json.load(open(cur))
                 except Exception:  # noqa
                     curcase = None
-            if curcase is not None and curcase.get("property", self.prop) == self.prop:
+            if curcase is not None and (curcase.get("property") or self.prop) == self.prop:
                 # the process died inside the library while a recorded case was running: that case is the failing input
                 m = re.search(r"^(panic: .*|fatal error: .*)$", out, re.M)
                 self.findings.append({"kind": "oracle", "property": self.prop, "signature": "process-died-" + cmd,
